@@ -794,4 +794,4 @@ def check(ctx):
     r9_template_names_unmodified(ctx)
 
 
-CLAUSE += '; `==` / `!=` in the skip conditions compare reviewed types only; no discrimination of the edge kind treats an exclusive borrow as ordering-only'
+CLAUSE += ' Also: `==` / `!=` in the skip conditions compare reviewed types only; no discrimination of the edge kind treats an exclusive borrow as ordering-only.'
